@@ -18,6 +18,17 @@ from amoco.system.utils import read_leb128, read_uleb128, read_sleb128
 ISPECS = []
 
 
+def _leb(obj, data, sign=+1, offset=0):
+    """read the LEB128 number at data[offset:] (bytes); the instruction is
+    rejected when the input ends before the number does."""
+    if len(data) <= offset:
+        raise InstructionError(obj)
+    result, blen = read_leb128(data, sign, offset)
+    if data[offset + blen - 1] & 0x80:
+        raise InstructionError(obj)
+    return result, blen
+
+
 @ispec("8>[ {00} ]", mnemonic="unreachable")
 @ispec("8>[ {01} ]", mnemonic="nop")
 @ispec("8>[ {d1} ]", mnemonic="ref",action="is_null")
@@ -200,7 +211,7 @@ def xdata_select(obj,**kargs):
 @ispec("*>[ {26} ~data(*) ]", mnemonic="table", action="set")
 def dw_uleb128(obj, data):
     data = pack(data)
-    obj.x,blen = read_uleb128(data)
+    obj.x,blen = _leb(obj, data)
     obj.bytes += data[0:blen]
     # index (u32) or, for select, length of the vector of types:
     obj.operands = [env.cst(obj.x,32)]
@@ -214,7 +225,7 @@ def dw_uleb128(obj, data):
 @ispec("*>[ {44} ~data(*) ]", mnemonic="f64")
 def dw_uleb128(obj, data):
     data = pack(data)
-    obj.n,blen = read_uleb128(data)
+    obj.n,blen = _leb(obj, data)
     obj.bytes += data[0:blen]
     obj.operands = [env.cst(obj.n,64 if obj.mnemonic in ("i64","f64") else 32)]
     obj.action = "const"
@@ -226,7 +237,7 @@ def dw_table(obj, data):
     if len(data) == 0:
         # the sub-opcode is missing
         raise InstructionError(obj)
-    v,blen = read_uleb128(data)
+    v,blen = _leb(obj, data)
     obj.bytes += data[0:blen]
     obj.type = type_data_processing
     if v>17:
@@ -253,7 +264,7 @@ def dw_table(obj, data):
         obj.bytes += data[blen:blen+1]
         return
     data = data[blen:]
-    obj.x,blen1 = read_leb128(data,1,0)
+    obj.x,blen1 = _leb(obj, data, 1, 0)
     obj.bytes += data[0:blen1]
     if v==8:
         obj.mnemonic = "memory"
@@ -266,14 +277,14 @@ def dw_table(obj, data):
         obj.action = "drop"
     elif v==12:
         obj.y = obj.x
-        obj.x,blen2 = read_leb128(data,1,blen1)
+        obj.x,blen2 = _leb(obj, data, 1, blen1)
         obj.bytes += data[blen1:blen1+blen2]
         obj.action = "init"
     elif v==13:
         obj.mnemonic = "elem"
         obj.action = "drop"
     elif v==14:
-        obj.y,blen2 = read_leb128(data,1,blen1)
+        obj.y,blen2 = _leb(obj, data, 1, blen1)
         obj.bytes += data[blen1:blen1+blen2]
         obj.action = "copy"
     else:
@@ -297,7 +308,7 @@ def dw_op_block(obj, data):
         obj.bytes += data[0:1]
     else:
         # type index (s33)
-        bt,blen = read_sleb128(data)
+        bt,blen = _leb(obj, data, -1)
         obj.bt = env.cst(bt,33)
         obj.bytes += data[0:blen]
     obj.operands = [obj.bt]
@@ -323,7 +334,7 @@ def xdata_br_table(obj,**kargs):
 @ispec("*>[ {0e} ~data(*) ] &", mnemonic="br_table")
 def dw_op_br(obj, data):
     data = pack(data)
-    obj.l,blen = read_uleb128(data)
+    obj.l,blen = _leb(obj, data)
     obj.bytes += data[0:blen]
     # label index, or for br_table the length of the vector of labels:
     obj.operands = [env.cst(obj.l,32)]
@@ -345,7 +356,7 @@ def xdata_call_indirect(obj,**kargs):
 @ispec("*>[ {11} ~data(*) ] &", mnemonic="call_indirect")
 def dw_op_call(obj, data):
     data = pack(data)
-    obj.x,blen = read_uleb128(data)
+    obj.x,blen = _leb(obj, data)
     obj.bytes += data[0:blen]
     # function index (call) or type index (call_indirect):
     obj.operands = [env.cst(obj.x,32)]
@@ -378,8 +389,8 @@ def dw_op_call(obj, data):
 @ispec("*>[ {3e} ~data(*) ]", mnemonic="i64", action="store32")
 def dw_memarg(obj, data):
     data = pack(data)
-    obj.a,blen1 = read_leb128(data,1,0)
+    obj.a,blen1 = _leb(obj, data, 1, 0)
     obj.bytes += data[0:blen1]
-    obj.o,blen2 = read_leb128(data,1,blen1)
+    obj.o,blen2 = _leb(obj, data, 1, blen1)
     obj.bytes += data[blen1:blen1+blen2]
     obj.type = type_data_processing
